@@ -23,6 +23,9 @@ pub uninterp spec fn kernel_prot_set(addr: int, len: int, prot: int) -> bool;
 /// `mlock(addr, len)` was called and returned 0
 pub uninterp spec fn kernel_locked(addr: int, len: int) -> bool;
 
+/// `munlock(addr, len)` was called (answer unknown)
+pub uninterp spec fn munlock_called(addr: int, len: int) -> bool;
+
 /// `munlock(addr, len)` was called and returned 0
 pub uninterp spec fn kernel_unlocked(addr: int, len: int) -> bool;
 
@@ -74,6 +77,10 @@ pub open spec fn prot_granted(addr: int, n: nat, prot: int) -> bool {
 
 pub open spec fn lock_granted(addr: int, n: nat) -> bool {
     n == 0 || exists|len: int| #[trigger] kernel_locked(addr, len) && covers(len, n as int, page_size())
+}
+
+pub open spec fn unlock_requested(addr: int, n: nat) -> bool {
+    n == 0 || exists|len: int| #[trigger] munlock_called(addr, len) && covers(len, n as int, page_size())
 }
 
 pub open spec fn unlock_granted(addr: int, n: nat) -> bool {
